@@ -82,7 +82,8 @@ var all = map[string]*runner.Spec{
 			"the instrumenter's map-range rewrite preserves semantics (guarded by running the repository's own v2 tests against the instrumented copy in the self-test)",
 		},
 		QuickRuns: 1600, ThorRuns: 40000, QuickCap: 420, ThorCap: 2400,
-		TestPkgs: []string{"github.com/google/licenseclassifier/v2"},
+		TestPkgs:     []string{"github.com/google/licenseclassifier/v2"},
+		PlainHarness: true,
 		Instrument: func(sc *runner.Scratch) error {
 			_, err := sc.Instrument(runner.InstrumentPlan{V2: map[string]instr.Opts{"": mapsOnly}})
 			return err
